@@ -84,31 +84,36 @@ var aStatsMu sync.Mutex
 func recordDiffs(st *famStats, class, alg string, doc []byte, desc string, diffs []apexDiff) {
 	for _, d := range diffs {
 		atomic.AddInt64(&st.Mismatches, 1)
-		for _, c := range d.Classes {
+		for _, c := range rootCause(d.Classes) {
 			aStatsMu.Lock()
 			st.ByClass[c]++
 			aStatsMu.Unlock()
-			var key string
-			if class != "generic" {
-				classSeenMu.Lock()
-				classSeen[alg+":"+c] = true
-				classSeenMu.Unlock()
-				key = "c14n:" + alg + ":" + c
-			} else {
-				classSeenMu.Lock()
-				seen := classSeen[alg+":"+c]
-				classSeenMu.Unlock()
-				if seen {
-					key = "c14n:" + alg + ":" + c
-				} else {
-					key = "c14n-generic:" + alg + ":" + c
-				}
+			// The statement is about "the documents it signs": a deviation on a
+			// document of the general family (outside the classes relic signs) is
+			// tallied as an observation, never raised as a violation.
+			if class == "generic" {
+				run.Outcome("generic-deviation:" + alg + ":" + c)
+				continue
 			}
+			key := "c14n:" + alg + ":" + c
 			run.Outcome("c14n-differs:" + alg + ":" + c)
 			report(key, fmt.Sprintf("SerializeCanonical differs from %s canonical XML (%s) on a %s document: %s", algName(alg), c, class, desc),
 				len(doc)+len(d.Ref), map[string]any{"part": "A", "class": class, "algorithm": algName(alg), "family": st.Family, "case": desc, "document": string(doc), "diff": d})
 		}
 	}
+}
+
+// rootCause: when a prefix that is visibly used is not bound at all in the
+// canonicalised subtree, every other difference class of the same subtree
+// (attribute order by namespace URI cannot be computed without the binding) is
+// a symptom of that one; report the root cause only.
+func rootCause(classes []string) []string {
+	for _, c := range classes {
+		if c == "nsdecl-missing:visibly-used" {
+			return []string{c}
+		}
+	}
+	return classes
 }
 
 func algName(a string) string {
@@ -151,10 +156,7 @@ func partA(pool *jvmPool) {
 				atomic.AddInt64(&st.Pairs, int64(pairs))
 				if status != "ok" {
 					run.Outcome("generic:" + status)
-					if strings.HasPrefix(status, "relic-rejects") || status == "element-count" {
-						report("c14n-generic:"+alg+":"+status, "relic cannot process a well-formed document the reference canonicalises: "+c.Desc, len(c.Doc),
-							map[string]any{"part": "A", "class": "generic", "family": fam.Name, "index": i, "document": string(c.Doc)})
-					}
+					// outside the classes relic signs: observation only (tallied above)
 					if status == "both-reject" || status == "reference-rejects" {
 						report("harness:generated-document-not-well-formed", "generator produced a document the reference parser rejects: "+c.Desc, len(c.Doc),
 							map[string]any{"family": fam.Name, "index": i, "document": string(c.Doc)})
@@ -330,7 +332,7 @@ func manifestClass(pool *jvmPool) {
 			own = "relic verify rejects it too: " + err.Error()
 			run.Outcome("manifest-signed:relic-rejects-own-signature")
 		}
-		for _, cls := range explainDigest(j, "manifest", out) {
+		for _, cls := range rootCause(explainDigest(j, "manifest", out)) {
 			key := "c14n:exc:" + cls
 			if cls == "written-document-differs-from-digested-tree" || cls == "unexplained" {
 				key = "manifest-sign:" + cls
